@@ -153,7 +153,15 @@ fn applicable(p: &Program) -> Vec<&Call> {
 /// run the program against the library
 pub fn build(p: &Program) -> IppRequestResponse {
     let uri: Uri = p.uri.parse().expect("uri");
-    let payload = || IppPayload::new(Cursor::new(p.payload.clone()));
+    // the document comes from a source that fills the buffer (a Cursor) or, for every other length, from one that hands it
+    // over in short reads of 1..9 octets (a pipe, a socket): "attached unmodified" whatever the source's read pattern
+    let payload = || {
+        if p.payload.len() % 2 == 1 {
+            IppPayload::new(vkit::src::Scripted::new(std::sync::Arc::new(p.payload.clone()), vkit::src::Plan::chunk(1 + p.payload.len() % 9)).0)
+        } else {
+            IppPayload::new(Cursor::new(p.payload.clone()))
+        }
+    };
     let calls = applicable(p);
     let attr = |n: &String, v: &MVal| IppAttribute::new(n, mirror::to_ipp_value(v));
     let last_user = calls.iter().rev().find_map(|c| if let Call::UserName(s) = c { Some(s.clone()) } else { None });
@@ -542,7 +550,7 @@ pub fn run_c10(args: &Args, tier: &str, seed: u64) -> Report {
     for r in parts {
         rep.merge(r);
     }
-    rep.rule = "G6: random builder programs over the 10 operations (via IppOperationBuilder or the operation structs), random sequences of setter calls (repeats: last wins for single-valued setters, accumulating setters keep all), arbitrary UTF-8 arguments, i32 boundary job ids, 0/1/n requested attributes, G5 target URIs, extra job attributes with values from G1; plus the raw request constructor for every registered Operation with/without URI and the response constructor for every registered status x ids. Oracle: reference request per operation (operation code from the reference registry, version 1.1, request-id in 1..2^31-1, operation group = charset + natural language + canonical printer-uri from the independent URI splitter + exactly the arguments' attributes with the stated syntaxes, job group = extras with last-wins, payload bytes) compared with the in-memory request and with the reference decoder's reading of to_bytes(); 'nothing else' = equality of attribute-name sets per group. Non-trivial = program with at least one applicable setter call; distinct by program text.".into();
+    rep.rule = "G6: random builder programs over the 10 operations (via IppOperationBuilder or the operation structs), random sequences of setter calls (repeats: last wins for single-valued setters, accumulating setters keep all), arbitrary UTF-8 arguments, i32 boundary job ids, 0/1/n requested attributes, G5 target URIs, extra job attributes with values from G1, documents handed over by a buffer-filling source or in short reads of 1..9 octets; plus the raw request constructor for every registered Operation with/without URI and the response constructor for every registered status x ids. Oracle: reference request per operation (operation code from the reference registry, version 1.1, request-id in 1..2^31-1, operation group = charset + natural language + canonical printer-uri from the independent URI splitter + exactly the arguments' attributes with the stated syntaxes, job group = extras with last-wins, payload bytes) compared with the in-memory request and with the reference decoder's reading of to_bytes(); 'nothing else' = equality of attribute-name sets per group. Non-trivial = program with at least one applicable setter call; distinct by program text.".into();
     if only.is_none() {
         rep.require(rep.sets.get("operations").map(|s| s.len()).unwrap_or(0) == 10, "all 10 operations exercised");
     }
@@ -881,11 +889,27 @@ pub fn run_c13(args: &Args, tier: &str, seed: u64) -> Report {
                         }
                     }
                 }
-                // the raw constructor
-                rep.eval();
-                let req = IppRequestResponse::new(IppVersion::v1_1(), Operation::GetPrinterAttributes, Some(uri.clone()));
-                if req.to_bytes().windows(5).any(|w| w == b"TAINT") {
-                    rep.violation("C13:leak", format!("target {s:?} via IppRequestResponse::new: request bytes contain user-info/query material"), replay.clone());
+                // the raw constructor, under every protocol version
+                for (vname, version) in [("1.0", IppVersion::v1_0()), ("1.1", IppVersion::v1_1()), ("2.0", IppVersion::v2_0()), ("2.1", IppVersion::v2_1()), ("2.2", IppVersion::v2_2())] {
+                    rep.eval();
+                    rep.count("raw_constructor_checks", 1);
+                    let how = format!("IppRequestResponse::new (IPP/{vname})");
+                    match catch(|| {
+                        let req = IppRequestResponse::new(version, Operation::GetPrinterAttributes, Some(uri.clone()));
+                        let pu = req.attributes().groups_of(DelimiterTag::OperationAttributes).next().and_then(|g| g.attributes().get("printer-uri")).map(|a| format!("{}", a.value()));
+                        (pu, req.to_bytes().to_vec())
+                    }) {
+                        Err(pn) => rep.violation(format!("C13:panic:{}", panic_site(&pn)), format!("target {s:?} via {how}: {pn}"), replay.clone()),
+                        Ok((pu, bytes)) => {
+                            match pu {
+                                Some(pu) => check_canonical(&mut rep, &p, &how, &pu, &replay),
+                                None => rep.violation("C13:missing-printer-uri", format!("target {s:?} via {how}: no printer-uri"), replay.clone()),
+                            }
+                            if bytes.windows(5).any(|w| w == b"TAINT") {
+                                rep.violation("C13:leak", format!("target {s:?} via {how}: request bytes contain user-info/query material"), replay.clone());
+                            }
+                        }
+                    }
                 }
             }
             idx += nthreads as u64;
@@ -897,7 +921,7 @@ pub fn run_c13(args: &Args, tier: &str, seed: u64) -> Report {
         rep.merge(r);
     }
     rep.extra.insert("grid_size".into(), J::Int(grid.len() as i64));
-    rep.rule = "G5: target URIs assembled from known components: exhaustive grid (4 schemes x 10 hosts (reg-name incl. a trailing-dot FQDN, IPv4, IPv6 literals) x 8 port forms x 8 user-info forms (incl. raw @) x 9 paths x 6 queries) plus seeded random URIs (incl. paths of 1-20 KiB); user-info and query carry TAINT markers. Oracle: components of the canonical printer-uri (own splitter, not http::Uri) vs the inputs: IPP scheme, same host, port iff given (numerically equal), same path (''=='/'), no user-info, no query, no marker anywhere in the printer-uri or in to_bytes() of requests from all 9 URI-taking constructors and the raw constructor; idempotence; each judged call is preceded by two look-alike targets (authority case swapped; other credentials / port / query / scheme / path case) so that a result remembered from an earlier call would show. Strings http::Uri refuses are counted and skipped. Non-trivial = target carrying user-info or a query.".into();
+    rep.rule = "G5: target URIs assembled from known components: exhaustive grid (4 schemes x 10 hosts (reg-name incl. a trailing-dot FQDN, IPv4, IPv6 literals) x 8 port forms x 8 user-info forms (incl. raw @) x 9 paths x 6 queries) plus seeded random URIs (incl. paths of 1-20 KiB and registered-name hosts of 200-4000 octets); user-info and query carry TAINT markers. Oracle: components of the canonical printer-uri (own splitter, not http::Uri) vs the inputs: IPP scheme, same host, port iff given (numerically equal), same path (''=='/'), no user-info, no query, no marker anywhere in the printer-uri or in to_bytes() of requests from all 9 URI-taking constructors and the raw constructor under each of the five protocol versions; idempotence; each judged call is preceded by two look-alike targets (authority case swapped; other credentials / port / query / scheme / path case) so that a result remembered from an earlier call would show. Strings http::Uri refuses are counted and skipped. Non-trivial = target carrying user-info or a query.".into();
     if only.is_none() {
         rep.require(rep.sets.get("host_forms").map(|s| s.len()).unwrap_or(0) == 3, "reg-name, IPv4 and IPv6 hosts exercised");
         rep.require(rep.evaluations > grid.len() as u64 / 2, "most grid targets accepted by the URI parser");
@@ -961,6 +985,19 @@ pub fn run_c14(args: &Args, tier: &str, seed: u64) -> Report {
                     continue;
                 }
             };
+            // the same through a client object: the URL a client contacts is the mapping of the target it *holds*, so a
+            // constructor that rewrites its target (drops a port it takes for a default, fills in a path, canonicalises) shows here
+            if idx % 4 == 1 {
+                match catch(|| ipp::client::verif_transport_url(IppClient::new(uri.clone()).uri())) {
+                    Ok(through) => {
+                        rep.count("mapped_through_a_client_object", 1);
+                        if through != got {
+                            rep.violation("C14:mapping-through-client", format!("target {s:?}: IppClient::new(target) contacts {through:?}, the mapping of the target itself is {got:?}"), replay.clone());
+                        }
+                    }
+                    Err(pn) => rep.violation(format!("C14:panic:{}", panic_site(&pn)), format!("IppClient::new({s:?}): {pn}"), replay.clone()),
+                }
+            }
             if rep.samples.len() < 4 && idx % 7919 == 13 {
                 rep.sample(J::obj().with("target", s.as_str()).with("transport_url", got.as_str()));
             }
